@@ -1,6 +1,6 @@
 (* C05 — property theorems (statements only; proofs live in Proofs*.v). *)
 From Coq Require Import List ZArith QArith Bool Sorting.Permutation.
-Require Import QV.C05.Model QV.C05.Spec QV.C05.Param QV.C05.Proofs QV.C05.Proofs2 QV.C05.Proofs3 QV.C05.Proofs4 QV.C05.Proofs5 QV.C05.Ctors QV.C05.Proofs6 QV.C05.Proofs7 QV.C05.ProofsP QV.C05.Proofs8 QV.C05.Proofs9.
+Require Import QV.C05.Model QV.C05.Spec QV.C05.Param QV.C05.Proofs QV.C05.Proofs2 QV.C05.Proofs3 QV.C05.Proofs4 QV.C05.Proofs5 QV.C05.Ctors QV.C05.Proofs6 QV.C05.Proofs7 QV.C05.ProofsP QV.C05.Proofs8 QV.C05.Proofs9 QV.C05.Proofs10.
 Import ListNotations.
 Open Scope Z_scope.
 
@@ -211,3 +211,13 @@ Example C05_parallel_atomic_nonvacuous :
   NoDup (map fst (amc_chans (scope_of []) [MLeaf [] (AConst (EAff 2 []) [(1%N, EAff 1 [])]);
                                           MLeaf [] (AFun 2%N (EAff 2 []) 1%Q (EAff 0 []))])).
 Proof. vm_compute. constructor; [intros [H|[]]; discriminate|]. constructor; [intros []|constructor]. Qed.
+
+(* ---- freedom from KeyError, first step: the leaf of every un-collapsed atom, TransformingWaveform(atom, chain), never
+        raises when it is looked at the way an upload does (defined_channels, get_sampled per sorted channel with the
+        constant short-cut and the cache), reversed or not, when the chain has no LinearTransformation (the only
+        transformation that can raise).  The statement for whole compiled programs (collapsed leaves, Linear with all
+        inputs present) is still open. ---- *)
+Theorem C05_atom_leaf_never_raises : forall d chs G, no_linear G = true ->
+  wf_raises (WTrans (WAtom d chs) G) = false /\ wf_raises (WRev (WTrans (WAtom d chs) G)) = false.
+Proof. exact atom_leaf_never_raises. Qed.
+Print Assumptions C05_atom_leaf_never_raises.
